@@ -83,8 +83,8 @@ impl Check for C01 {
     fn rule() -> String {
         "Writer programs (register extensions, blobs, images, 1..6 point clouds with rule-following prototypes built from attribute groups, \
          record types with the bit width drawn first from 0..=64, point counts around the packet capacity, 1 in 40 clouds with a compact all-integer prototype and more than two full packets, \
-         a leading padding blob sweeping the section position mod 1020) are executed against the real writer on an in-memory device and read back with the raw iterator. \
-         Non-trivial: the file has a cloud with >= 3 data packets (the writer always emits a final packet for the carried partial bytes, so 2 is the norm), or a section/packet header straddling a page boundary, or a zero-width or \
+         a leading padding blob sweeping the section position mod 1020; 1 cloud history in 10 contains add_point calls that must be rejected, 1 operation in 25 is preceded by an add_blob call whose source breaks down part way) are executed against the real writer on an in-memory device and read back with the raw iterator. \
+         Every cloud is also read through the iterator adaptors skip(k).step_by(m) and count() (three strides per cloud: dense, long, and up to / across the end) and must give the matching sub-sequence. Non-trivial: the file has a cloud with >= 3 data packets (the writer always emits a final packet for the carried partial bytes, so 2 is the norm), or a section/packet header straddling a page boundary, or a zero-width or \
          64-bit-wide record. Distinct = distinct case JSON."
             .into()
     }
@@ -101,7 +101,7 @@ impl Check for C01 {
         ))
     }
     fn gen(s: &mut Src, _t: Tier) -> Case {
-        Case { program: prog::valid_program(s, &GenOpts { compact_chance: (1, 40), reject_chance: (1, 10), ..GenOpts::default() }) }
+        Case { program: prog::valid_program(s, &GenOpts { compact_chance: (1, 40), reject_chance: (1, 10), failing_blob_chance: (1, 25), ..GenOpts::default() }) }
     }
     fn run(case: &Case) -> Verdict {
         let mut v = Verdict::new();
@@ -142,6 +142,29 @@ impl Check for C01 {
             if let Some(d) = diff_cloud(e, &a, "written", "read") {
                 v.fail(format!("cloud {i}: {d}"));
                 return v;
+            }
+        }
+        // the same points through the standard iterator adaptors (skip / step_by / count call Iterator::nth & co)
+        if exp.clouds.iter().any(|c| !c.points.is_empty()) {
+            let r = guard(|| -> Result<Option<String>, String> {
+                let mut rd = e57::E57Reader::new(MemDev::with_data(bytes.clone())).map_err(|e| e.to_string())?;
+                for (i, (pc, e)) in rd.pointclouds().iter().zip(exp.clouds.iter()).enumerate() {
+                    let n = e.points.len();
+                    let h = crate::kit::hash_str(&p.guid) as usize;
+                    // strides chosen from the case itself: short ones, one up to the end, one across it
+                    for (k, (skip, step)) in [(h % 7, 1 + h % 5), (n / 2, (n / 3).max(1)), (n.saturating_sub(h % 3), 1)].into_iter().enumerate() {
+                        if let Some(m) = crate::adapt::check_strided(&mut rd, pc, &e.points, skip, step, k == 2)? {
+                            return Ok(Some(format!("cloud {i}: {m}")));
+                        }
+                    }
+                }
+                Ok(None)
+            });
+            match r {
+                Err(pn) => v.fail(format!("reader panicked under skip/step_by: {pn}")),
+                Ok(Err(e)) => v.fail(format!("re-opening for the strided read failed: {e}")),
+                Ok(Ok(Some(m))) => v.fail(m),
+                Ok(Ok(None)) => v.label("strided_iteration"),
             }
         }
         v
